@@ -30,7 +30,7 @@ type C15Sc struct {
 	WrapMw bool `json:"wrap_mw,omitempty"`
 }
 
-var c15Actions = []string{"pr", "pw", "pr,pw", "pw,pr", "pc", "pg", "pw,et", "pw,ps", "y2,pr", "pr,y2,pw,y1,pr", "pw,y3,pr", "y1,pg", "pc,pr", "pw,pc,pr", "ok", "et"}
+var c15Actions = []string{"pr", "pw", "pr,pw", "pw,pr", "pc", "pg", "pw,et", "pw,ps", "y2,pr", "pr,y2,pw,y1,pr", "pw,y3,pr", "y1,pg", "pc,pr", "pw,pc,pr", "ok", "et", "pz", "pw,pz,pr", "pz,pr", "px", "pw,px,pr"}
 
 func genC15(g *simrt.Tape, tier string) any {
 	sc := &C15Sc{Direct: g.Draw(3) == 0}
@@ -140,6 +140,9 @@ func checkPlaceholder(x *X, trace []hEvent, order map[string]int) {
 				return
 			}
 			c.vals = map[string]bool{val: true}
+		case "getx":
+			// resolving an explicit id is not a store: what it returns is not judged here, only that later reads
+			// still see the last stored value (the cell is left alone)
 		case "end":
 			// after a failed item the statement does not say whether the value survives: both accepted
 			if itemFails(ItemSc{Tok: strings.Join(tokenActions(ev.Token), ",")}) {
@@ -244,9 +247,9 @@ func c15Floor(tier string) []*C15Sc {
 		}
 	}
 	// optional item elements (non-critical message extension, no batch item id) on the storing, clearing and reading item
-	for mask := 0; mask < 16; mask++ {
+	for mask := 0; mask < 64; mask++ {
 		for _, noid := range []bool{false, true} {
-			items := []ItemSc{{Tok: "pw"}, {Tok: "pr"}, {Tok: "pc"}, {Tok: "pr,pw,pr"}}
+			items := []ItemSc{{Tok: "pw"}, {Tok: "pr"}, {Tok: "pc"}, {Tok: "pr,pw,pr"}, {Tok: "pz"}, {Tok: "pr,px,pr"}}
 			for i := range items {
 				if mask&(1<<i) != 0 {
 					items[i].Ext = "plain"
